@@ -564,7 +564,7 @@ impl Scenario for IncScn {
         match p {
             "C11" => {
                 positions(&mut v, &[1000, 1, 7], if self.reduced { &[0, 2] } else { &[0, 1, 2] }, true);
-                for k in ["less_than_stated", "more_than_stated", "zero"] {
+                for k in ["less_than_stated", "more_than_stated", "zero", "stated_but_nothing_sent"] {
                     v.push(IAct::BadOpen { user: us[0].clone(), kind: k.to_string() });
                 }
                 if matches!(h.lp, AssetInfo::Token { .. }) && !h.root.standing_allowance {
